@@ -7,9 +7,22 @@ import "sync"
 // hands the baton on instead of parking its OS thread).
 type Mutex struct{ mu sync.Mutex }
 
+// lockAlone: with a single task under the kernel nobody else can release a lock that is held, so a lock that
+// cannot be taken at once is a deadlock (e.g. a mutex left locked by an earlier render that panicked).
+func lockAlone(try func() bool, lock func()) {
+	if !Active() {
+		lock()
+		return
+	}
+	if !try() {
+		noteDeadlock()
+		panic(Deadlock{})
+	}
+}
+
 func (m *Mutex) Lock() {
 	if !multi() {
-		m.mu.Lock()
+		lockAlone(m.mu.TryLock, m.mu.Lock)
 		return
 	}
 	for {
@@ -36,7 +49,7 @@ type RWMutex struct{ mu sync.RWMutex }
 
 func (m *RWMutex) Lock() {
 	if !multi() {
-		m.mu.Lock()
+		lockAlone(m.mu.TryLock, m.mu.Lock)
 		return
 	}
 	for {
@@ -58,7 +71,7 @@ func (m *RWMutex) Unlock() {
 
 func (m *RWMutex) RLock() {
 	if !multi() {
-		m.mu.RLock()
+		lockAlone(m.mu.TryRLock, m.mu.RLock)
 		return
 	}
 	for {
